@@ -209,13 +209,17 @@ fn main() {
         let v: Value = serde_json::from_slice(&std::fs::read(rp).unwrap_or_else(|e| machinery_error(&format!("read replay: {e}"))))
             .unwrap_or_else(|e| machinery_error(&format!("parse replay: {e}")));
         let r = &v["replay"];
-        let cfg = Cfg::from_json(&r["cfg"]);
-        let spec = json!({"cfg": cfg.to_json(), "scenario": r["scenario"], "downloads": true});
-        jobs.push(Job {
-            name: "replay".into(),
-            env: cfg.env(),
-            args: vec!["--worker".into(), spec.to_string()],
-        });
+        // a cross-process C03 conflict is replayed by running each of its contexts in its own process
+        let ctxs: Vec<Value> = if let Some(p) = r["pair"].as_array() { p.clone() } else { vec![r.clone()] };
+        for c in ctxs {
+            let cfg = Cfg::from_json(&c["cfg"]);
+            let spec = json!({"cfg": cfg.to_json(), "scenario": c["scenario"], "downloads": true});
+            jobs.push(Job {
+                name: "replay".into(),
+                env: cfg.env(),
+                args: vec!["--worker".into(), spec.to_string()],
+            });
+        }
     } else {
         let probe_atoms = Atoms::harvest(128, K_ATOMS, 7);
         for (cfg, fam) in plan(args.tier) {
@@ -247,10 +251,16 @@ fn main() {
     }
     // cross-worker C03 oracle over the pointer facts
     let mut by_content: BTreeMap<(String, String), Vec<(String, String)>> = BTreeMap::new();
+    let mut ctx_of: BTreeMap<(String, String, String), Value> = BTreeMap::new();
     for f in &all.facts {
-        let p: Vec<&str> = f.split('|').collect();
+        let p: Vec<&str> = f.splitn(5, '|').collect();
         if p.len() == 5 && p[0] == "ptr" {
             by_content.entry((p[1].to_string(), p[2].to_string())).or_default().push((p[3].to_string(), p[4].to_string()));
+        }
+        if p.len() == 5 && p[0] == "ptrctx" {
+            if let Ok(v) = serde_json::from_str::<Value>(p[4]) {
+                ctx_of.entry((p[1].to_string(), p[2].to_string(), p[3].to_string())).or_insert(v);
+            }
         }
     }
     let mut contents_compared = 0u64;
@@ -259,7 +269,8 @@ fn main() {
             all.violation(
                 "C03/pointer-differs-across-workers",
                 format!("content {content} salt {salt}: pointers {vals:?} in different configurations/processes"),
-                json!({"lab": "session", "note": "cross-process comparison; see the per-worker violation for a scenario", "content": content, "values": vals}),
+                json!({"lab": "session", "note": "cross-process comparison: each context below is re-run in its own process", "content": content, "values": vals,
+                    "pair": vals.iter().filter_map(|(h, _)| ctx_of.get(&(salt.clone(), content.clone(), h.clone())).cloned()).collect::<Vec<_>>()}),
             );
         }
         contents_compared += 1;
